@@ -8,7 +8,7 @@ Property C05, load order: the same sources give the same result whatever the ord
 were loaded.  This file proves the open core statement `Props.C05.ProcessLoadOrderIrrelevant`
 (there only stated) — with the two hypotheses it needs: module names are identifiers (`NamesOk`,
 as in C13) and no two sources define the same (kind, name, revision) (`Distinct`; without it the
-statement is false, `distinct_needed`).
+statement is false, `distinct_needed`; for `NamesOk` see `names_rejected` at the end).
 
 In the resolver model a loaded module is identified by its load sequence number `Mod.seq`
 (tree ids, `nodeMod`, visited sets, caches, pending augments, link sets, the identity dictionary
@@ -233,18 +233,19 @@ def atB : Stmt :=
   st "m.yang" "module" "m" 1 [st "m.yang" "namespace" "urn:m" 2, st "m.yang" "prefix" "m" 3,
     st "m.yang" "revision" "2020" 4]
 
-/-- **`NamesOk` cannot be dropped** (the ambiguity C13 excludes the same way): the two modules
-have different headers, but the key `m@2020` is claimed by both; whichever is loaded first keeps
-it — loaded second, `m@2020` is still accepted (it has no revision) but stays unbound, `m` is
-rejected as a duplicate — and the dumps differ. -/
-theorem names_needed :
+/-- **The ambiguity behind `NamesOk` is gone from the code** (defect D61, repaired: `Modules.add`
+refuses a name containing `@`).  Before the repair the key `m@2020` was claimed by both modules
+and whichever was loaded first kept it, so the two load orders gave different dumps; now `m@2020`
+is refused in both orders, the registries are equal and so are the dumps.  (`NamesOk` remains a
+hypothesis of the theorems above; `Props.C13` shows the registry half without it.) -/
+theorem names_rejected :
     Distinct [atA, atB] ∧ [atA, atB].Perm [atB, atA] ∧ ¬ NamesOk [atA, atB] ∧
-    dumpOutcome (processAll (Registry.loadAll [atA, atB]).1 {} (plugLite (Registry.loadAll [atA, atB]).1)) ≠
+    (Registry.loadAll [atA, atB]).2.map Option.isSome = [true, false] ∧
+    (Registry.loadAll [atB, atA]).2.map Option.isSome = [false, true] ∧
+    dumpOutcome (processAll (Registry.loadAll [atA, atB]).1 {} (plugLite (Registry.loadAll [atA, atB]).1)) =
       dumpOutcome (processAll (Registry.loadAll [atB, atA]).1 {} (plugLite (Registry.loadAll [atB, atA]).1)) := by
-  refine ⟨by decide, List.Perm.swap _ _ _, by decide, ?_⟩
-  intro h
-  have hl := congrArg String.length h
-  revert hl
-  decide +kernel
+  have hreg : (Registry.loadAll [atA, atB]).1 = (Registry.loadAll [atB, atA]).1 := by rfl
+  refine ⟨by decide, List.Perm.swap _ _ _, by decide, by decide, by decide, ?_⟩
+  rw [hreg]
 
 end Goyang.Props.C05Order
